@@ -7,6 +7,7 @@ import (
 	"fmt"
 	"strings"
 	"time"
+	"unicode"
 
 	"github.com/herohde/morlock/pkg/board"
 	"github.com/herohde/morlock/pkg/board/fen"
@@ -283,6 +284,39 @@ func casesText(c *caseCtx) {
 		}
 		c.emit("decode %s => %s", codes(s), decodeObs(s))
 	}
+	// every Unicode decimal digit (category Nd, about 680 runes) and a band of runes around each code
+	// point congruent to '1'..'8' or 'a'..'h' modulo 256 / 65536, as rank and as file character of a
+	// square, of a move and of a FEN en passant field: only ASCII is coordinate notation
+	var exotic []rune
+	for _, r16 := range unicode.Nd.R16 {
+		for r := rune(r16.Lo); r <= rune(r16.Hi); r += rune(r16.Stride) {
+			exotic = append(exotic, r)
+		}
+	}
+	for _, r32 := range unicode.Nd.R32 {
+		for r := rune(r32.Lo); r <= rune(r32.Hi); r += rune(r32.Stride) {
+			exotic = append(exotic, r)
+		}
+	}
+	for _, base := range []rune{0x100, 0x200, 0xff00, 0x10000, 0x10100, 0x20000, 0x10ff00} {
+		for _, lo := range []rune{'1', '8', 'a', 'h', 'A', 'H'} {
+			if r := base + lo; r <= unicode.MaxRune {
+				exotic = append(exotic, r)
+			}
+		}
+	}
+	for _, r := range exotic {
+		if r < 128 {
+			continue
+		}
+		sq1, sq2 := "e"+string(r), string(r)+"4"
+		c.emit("parsesq %s => %s", codes(sq1), safeParseSquare(sq1))
+		c.emit("parsesq %s => %s", codes(sq2), safeParseSquare(sq2))
+		mv := "e2e" + string(r)
+		c.emit("parsemove %s => %s", codes(mv), safeParseMove(mv))
+		ep := "rnbqkbnr/pppp1ppp/8/8/4pP2/8/PPPPP1PP/RNBQKBNR b KQkq f" + string(r) + " 0 2"
+		c.emit("decode %s => %s", codes(ep), decodeObs(ep))
+	}
 	// moves and squares
 	letters := []rune("abcdefghABCDEFGHijxz0123456789qrbnkpQRBNKP -+éｅ")
 	for i := 0; i < c.scale(3000, 60000); i++ {
@@ -465,6 +499,12 @@ func casesUciPosition(c *caseCtx) {
 	emit([]string{"position fen 4k3/8/8/8/8/8/8/R3K3 w Q - 0 1", "position fen 4k3/8/8/8/8/8/8/R3K3 w Q - 0 10 moves a1a2"})
 	emit([]string{"position fen 4k3/8/8/8/8/8/8/R3K3 w Q - 0 1", "position fen 4k3/8/8/8/8/8/8/R3K3 w Q - 0 1 moves a1a2", "position fen 4k3/8/8/8/8/8/8/R3K3 w Q - 0 1 moves a1a2 e8d8 a2a1 d8e8 a1a2 e8d8 a2a1 d8e8"})
 	emit([]string{"position startpos moves g1f3 g8f6 f3g1 f6g8", "position startpos moves g1f3 g8f6 f3g1 f6g8 g1f3 g8f6 f3g1 f6g8", "position startpos moves g1f3 g8f6 f3g1 f6g8 g1f3 g8f6 f3g1 f6g8 g1f3"})
+	// commands that differ from the previous one only in the case of letters describe other games (piece
+	// colours, castling rights) or are not moves at all
+	emit([]string{"position fen 4k3/8/8/8/8/8/3Q4/4K3 w - - 0 1", "position fen 4k3/8/8/8/8/8/3q4/4K3 w - - 0 1", "position fen 4k3/8/8/8/8/8/3q4/4K3 w - - 0 1 moves e1d2"})
+	emit([]string{"position fen r3k2r/8/8/8/8/8/8/R3K2R w Kq - 0 1", "position fen r3k2r/8/8/8/8/8/8/R3K2R w kQ - 0 1", "position fen r3k2r/8/8/8/8/8/8/R3K2R w kQ - 0 1 moves e1c1"})
+	emit([]string{"position fen 4k3/3p4/8/8/8/8/3P4/4K3 w - - 0 1 moves d2d4", "position fen 4k3/3P4/8/8/8/8/3p4/4K3 w - - 0 1 moves d7d8q"})
+	emit([]string{"position startpos moves e2e4", "position startpos moves E2E4 e7e5"})
 	// the current position re-sent as a FEN is a NEW game: no history, the clocks of the FEN
 	emit([]string{"position startpos moves g1f3 g8f6 f3g1 f6g8", "position fen rnbqkbnr/pppppppp/8/8/8/8/PPPPPPPP/RNBQKBNR w KQkq - 4 3", "position fen rnbqkbnr/pppppppp/8/8/8/8/PPPPPPPP/RNBQKBNR w KQkq - 4 3 moves g1f3 g8f6 f3g1 f6g8"})
 	emit([]string{"position startpos moves g1f3 g8f6 f3g1 f6g8", "ucinewgame", "position fen rnbqkbnr/pppppppp/8/8/8/8/PPPPPPPP/RNBQKBNR w KQkq - 4 3 moves g1f3 g8f6 f3g1 f6g8"})
